@@ -90,6 +90,24 @@ pub fn run(ctx: &Ctx, rep: &mut Report) {
                     }
                 }
                 "sum" | "avg" | "prod" => {
+                    if name == "prod" {
+                        // facts about an IEEE product that hold for every order of the factors and whatever
+                        // the rounding: a zero and an infinity among the factors give NaN; otherwise the sign
+                        // of the product is the parity of the negative factors (signed zeros included); a
+                        // zero factor gives a zero product
+                        let has_zero = xs.iter().any(|x| *x == 0.0);
+                        let has_inf = xs.iter().any(|x| x.is_infinite());
+                        let negative = xs.iter().filter(|x| x.is_sign_negative()).count() % 2 == 1;
+                        let bad = if has_zero && has_inf { !got.is_nan() }
+                            else if got.is_nan() {
+                                // otherwise NaN can only come from a partial product that overflowed meeting one that is (or underflowed to) zero
+                                !((has_inf || xs.iter().any(|x| x.abs() > 1e100)) && (has_zero || xs.iter().any(|x| x.abs() < 1e-100)))
+                            }
+                            else { got.is_sign_negative() != negative || (has_zero && got != 0.0) };
+                        if bad {
+                            rep.finding("oracle", "prod", &format!("prod({})", desc), &format!("got {:e} (bits {:016x}): zero factor {}, infinite factor {}, odd number of negative factors {}", got, got.to_bits(), has_zero, has_inf, negative), "c15.prod");
+                        }
+                    }
                     if xs.iter().all(|x| x.is_finite()) {
                         // reference in higher effective precision: compensated (Neumaier) sum; product by logs is avoided: compare with the sequential product and its reverse-order product
                         if name == "prod" {
